@@ -30,4 +30,17 @@ PROPS = {
         'correspondence': 'full pair matrix of IsHigherPriority vs is_higher_priority of the model on rules parsed by the model from the same texts; texts of the selected rules',
         'assumptions': [],
     },
+    'C08': {
+        'harness': 'c08',
+        'rule': 'base lists of 0-6 rules (feature grammar + $dnsrewrite rules of every value shape, some already with $badfilter) with k = 0-3 extra (rule, rule$badfilter) pairs inserted at random positions, each extra rule structurally distinct (by parsed fields) from every base rule, and near-twins differing in one modifier value added to the base; observables: texts of RemoveBadfilterRules, GetDNSBasicRule, NewMatchingResult(..).GetBasicResult, DNSRewrites; the harness also recomputes them on the base list alone and flags any change; non-trivial = at least one $badfilter rule in the case',
+        'correspondence': 'the four observables of the implementation vs the model on rules parsed by the model from the same texts',
+        'assumptions': ['the rules of a case are handed to the result functions directly (all treated as matching); matching itself is the subject of C04/C01/C02'],
+    },
+    'C09': {
+        'harness': 'c09',
+        'rule': 'ALL sequences of length 0..4 (quick; 0..5 thorough) over an alphabet of 12 rewrite shapes (A/A-important/second A/CNAME/NXDOMAIN/MX rewrites; A, important-A, CNAME, MX, empty and important-empty exceptions), plus sampled sequences of length 0..8 over a 70-shape alphabet (A, AAAA, CNAME, RCODE, TXT, MX, SRV, HTTPS, PTR, NS, bare NOERROR x important x exception, empty exceptions, $badfilter and non-rewrite rules), one in six through DNSEngine.MatchRequest; non-trivial = at least one rewrite exception and at least two rules; distinct = distinct sequences',
+        'correspondence': 'sequence of rule texts returned by DNSRewrites() vs dns_rewrites of the model on rules parsed from the same texts (for engine cases in the order the engine reported them)',
+        'exhaustive_part': 'sequences up to the stated length over the 12-shape alphabet',
+        'assumptions': [],
+    },
 }
